@@ -251,6 +251,7 @@ def run(P, rep, tier):
     rep.floor('C05.GEOM', 12)
 
     run_scratch(P, rep, C)
+    run_phase(P, rep, C)
 
 
 _lc = {}
@@ -403,3 +404,105 @@ def run_scratch(P, rep, C):
                        ('the zero-fill of the per-thread scratch array %s is narrower than a read in the same function: %s; the elements left out keep what the previous work item of the same thread wrote, so the result depends on the distribution of work over threads' % (fld.split('.')[1], '; '.join(probs[:3]))))
     rep.analysed['scratch_fills'] = ninst
     rep.floor('C05.SCRATCH', 1)
+
+
+# ---------------- PHASE: a kernel iteration that runs phase A and then phase B on the same per-thread context (mode decision, then the
+# encode pass) must not let A read a member that only B defines: A then sees what B left there in the *previous* iteration of the same
+# thread, i.e. the value belonging to whichever work item that thread happened to process before - which depends on the number of
+# threads and on scheduling.  Decided per member of the records reached through per-thread context arrays: defining stores (same-member
+# copies do not count) whose target is rooted in the context, classified by call-graph reachability from the two phase entry points.
+def _ctx_rooted(P, f, x, depth=0):
+    """the object expression x designates storage owned by a per-thread context (a member chain through a *Context record),
+    looking through single-assignment locals and, for parameters, through every call site"""
+    x = strip(x)
+    while x is not None and x[0] in ('k',):
+        x = strip(x[-1])
+    if x is None or depth > 4:
+        return False
+    if x[0] == 'u' and x[1] in ('&', '*'):
+        return _ctx_rooted(P, f, x[2], depth)
+    if x[0] == 'a' and x[1] == '=':
+        return _ctx_rooted(P, f, x[3], depth)              # value of a chained assignment  p = ctx->p = &...
+    if x[0] == 'i':
+        return _ctx_rooted(P, f, x[1], depth)
+    if x[0] == 'm':
+        if x[1].split('.')[0].endswith('Context') and not x[1].split('.')[0].startswith(('PictureControl', 'EncodeContext', 'SequenceControl')):
+            return True
+        return _ctx_rooted(P, f, x[3], depth) if len(x) > 3 else False
+    if x[0] == 'v':
+        pn = [n for n, t in f.params]
+        if x[1] in pn:
+            idx = pn.index(x[1])
+            sites = P.call_sites(f.name)
+            return bool(sites) and all(len(cv['e'][2]) > idx and _ctx_rooted(P, cf, cv['e'][2][idx], depth + 1) for cf, cv in sites)
+        defs = []
+        for d in f.events(('decl', 'st')):
+            e = d.get('e')
+            if e is None:
+                continue
+            if d['k'] == 'decl' and d['n'] == x[1]:
+                defs.append(strip(e))
+            elif d['k'] == 'st' and e[0] == 'a' and e[1] == '=':
+                t = strip(e[2])
+                if t is not None and t[0] == 'v' and t[1] == x[1]:
+                    r = strip(e[3])
+                    # chained assignment  a = b = expr
+                    while r is not None and r[0] == 'a' and r[1] == '=':
+                        r = strip(r[3])
+                    defs.append(r)
+        return bool(defs) and all(_ctx_rooted(P, f, dd, depth + 1) for dd in defs)
+    return False
+
+
+def run_phase(P, rep, C):
+    K = P.fn('mode_decision_kernel')
+    A = P.fn('mode_decision_sb')
+    B = P.fn('av1_encode_decode')
+    if K is None or A is None or B is None:
+        raise AnalysisBroken('C05.PHASE: mode_decision_kernel / mode_decision_sb / av1_encode_decode not found')
+    ca = [ev for ev, n in K.calls(A.name)]
+    cb = [ev for ev, n in K.calls(B.name)]
+    if not ca or not cb or not all(a['l'] < b['l'] for a in ca for b in cb):
+        raise AnalysisBroken('C05.PHASE: the kernel no longer runs mode decision before the encode pass')
+    ra = set(P.reachable_from([A]))
+    rb = set(P.reachable_from([B]))
+    only_a = {g for g in ra - rb if not g.nocfg}
+    only_b = {g for g in rb - ra if not g.nocfg}
+    defs_b, defs_a, reads_a = {}, {}, {}
+    for g in (ra | rb | {K}):
+        if g.nocfg or g.lib != 'Encoder':
+            continue
+        for ev in g.events(('st', 'decl', 'call', 'ret')):
+            e = ev.get('e')
+            if e is None:
+                continue
+            tgt = None
+            if ev['k'] == 'st' and e[0] in ('a', 'u'):
+                t = strip(e[2])
+                if t is not None and t[0] == 'm':
+                    tgt = t
+                    rr = strip(e[3]) if e[0] == 'a' and e[1] == '=' else None
+                    copy = rr is not None and rr[0] == 'm' and rr[1] == t[1]
+                    if not copy:
+                        if g in only_b:
+                            if len(t) > 3 and _ctx_rooted(P, g, t[3]):
+                                defs_b.setdefault(t[1], []).append((g, ev))
+                        else:
+                            defs_a.setdefault(t[1], []).append((g, ev))
+            if g in only_a:
+                for x in subexprs(e):
+                    if x[0] == 'm' and x is not tgt:
+                        reads_a.setdefault(x[1], []).append((g, ev))
+    n = 0
+    for fld, ds in sorted(defs_b.items()):
+        n += 1
+        other = defs_a.get(fld, [])
+        rd = reads_a.get(fld, [])
+        bad = bool(rd) and not other
+        g0, ev0 = ds[0]
+        rep.ob('C05.PHASE', 'encode-pass-defines:%s' % fld, not bad, g0.loc(ev0),
+               ('%s is defined in the per-thread context by the encode pass (%s); %s' % (fld.split('.')[1], g0.name, 'mode decision does not read it' if not rd else 'mode decision (or the kernel) defines it too: %s' % other[0][0].name)) if not bad else
+               ('%s of the per-thread context is defined only by the encode pass (%s) and read by mode decision (%s): mode decision runs first, so it reads what the encode pass of the previous superblock processed by the same thread left there; which superblock that was depends on the number of threads' %
+                (fld.split('.')[1], g0.name, ', '.join(sorted({g.name for g, ev in rd})[:4]))))
+    rep.analysed['phase_members'] = n
+    rep.floor('C05.PHASE', 10)
